@@ -45,6 +45,7 @@ REF_IDENTITY = (
     "<std::vec::Vec<T, A> as std::ops::DerefMut>::deref_mut",
     "<digest::generic_array::GenericArray<T, N> as std::ops::Deref>::deref",
     "<digest::generic_array::GenericArray<T, N> as std::ops::DerefMut>::deref_mut",
+    "std::io::Read::by_ref", "std::io::Write::by_ref",      # `&mut *self`: the reader / writer itself
 )
 # std wrappers that are their single field as far as values go
 TRANSPARENT = ("std::num::Wrapping", "core::num::Wrapping")
@@ -412,9 +413,15 @@ class SymExec:
                         return ("ref", self.place_loc(st, {"l": pl["l"], "p": []}), False)
             if ck in ("Transmute", "PtrToPtr", "Subtype"):
                 return ("cast", ck, t, self.fb.ty(r["ty"]).s)
+            if ck == "IntToInt" and t[0] == "int":
+                return fold_consts(("cast", ck, t, self.fb.ty(r["ty"]).s))     # `i16::MAX as u32`
             return ("cast", ck, t, self.fb.ty(r["ty"]).s)
         if k == "binop":
-            return ("binop", r["op"], self.operand(st, r["a"]), self.operand(st, r["b"]))
+            a_, b_ = self.operand(st, r["a"]), self.operand(st, r["b"])
+            if a_[0] == "int" and b_[0] == "int":
+                # arithmetic on two literals (`(1 << 15) - 1` written out): its value
+                return fold_consts(("binop", r["op"], a_, b_))
+            return ("binop", r["op"], a_, b_)
         if k == "unop":
             a = self.operand(st, r["a"])
             if r["op"] == "PtrMetadata":
